@@ -386,6 +386,9 @@ func (r *rewriter) walkFile() {
 					case r.isPkgSel(x.Fun, "time", "Since") && len(x.Args) == 1:
 						x.Fun = simSel("Since")
 						r.used["T4"] = true
+					case r.isPkgSel(x.Fun, "time", "NewTicker") && len(x.Args) == 1:
+						x.Fun = simSel("NewTicker")
+						r.used["T4"] = true
 					case r.isPkgSel(x.Fun, "os", "Getpid") && len(x.Args) == 0:
 						x.Fun = simSel("Getpid")
 						r.used["T4"] = true
